@@ -690,6 +690,59 @@ DUNDERS = ['__matmul__', '__rmatmul__', '__add__', '__radd__', '__sub__', '__mul
            '__truediv__', '__neg__', '__pos__']
 
 
+# ---- reference models on mv (C09, C11-C15) --------------------------------------------------------
+
+
+def mv_tolerance(op: Any, x: Any, y: Any) -> float:
+    sizes = [np.dtype(l.dtype).itemsize for l in jax.tree.leaves(x) + jax.tree.leaves(y)] or [4]
+    name = type(op).__name__
+    inexact = name in dense.TRIG or (name == 'SymmetricBandToeplitzOperator' and op.method in ('fft', 'overlap_save'))
+    if min(sizes) >= 8:
+        return 1e-9 if inexact else 1e-12
+    if min(sizes) == 2:
+        return 2e-2
+    return 3e-4 if inexact else 3e-6
+
+
+def h_mvref(orig: Any, self: Any, x: Any) -> Any:
+    from . import refmodels
+
+    y = orig(self, x)
+    name = type(self).__name__
+    entry = refmodels.MODELS.get(name)
+    if entry is None or not type(self).__module__.startswith('furax.'):
+        return y
+    prop, model = entry
+    mon = f'{prop}.mv'
+    if is_tracer(x) or is_tracer(y):
+        LOG.skipped(mon, 'traced')
+        return y
+
+    def judge() -> None:
+        exp = model(self, x)
+        got = [np.asarray(l, dtype=np.float64) for l in jax.tree.leaves(y)]
+        LOG.evaluated(mon)
+        LOG.count(f'{prop}.mv.class', name)
+        if len(exp) != len(got) or any(e.shape != g.shape for e, g in zip(exp, got)):
+            LOG.violation(prop, mon, f'{name}.mv/shape', 'result shapes differ from the reference model',
+                          expr=dense.describe(self), expected=[list(e.shape) for e in exp],
+                          got=[list(g.shape) for g in got])
+            return
+        tol = mv_tolerance(self, x, y)
+        for e, g in zip(exp, got):
+            ok, err = dense.close(e, g, tol)
+            if not ok:
+                LOG.violation(prop, mon, f'{name}.mv/values', f'differs from the NumPy reference model '
+                              f'(rel err {err:.3g}, tol {tol:g})', expr=dense.describe(self),
+                              x=[np.asarray(l).tolist() for l in jax.tree.leaves(x)][:3],
+                              expected=np.array2string(e, precision=5, threshold=60),
+                              got=np.array2string(g, precision=5, threshold=60))
+                return
+
+    guarded(mon, judge)
+    return y
+
+
 # ---- installation ----------------------------------------------------------------------------------
 
 
@@ -711,6 +764,8 @@ def install() -> dict[str, int]:
         for d in DUNDERS:
             if wrap(cls, d, 'arith', make_dunder_handler(d)):
                 counts['methods'] += 1
+        if wrap(cls, 'mv', 'mvref', h_mvref):
+            counts['methods'] += 1
     binary, nary = all_rule_classes()
     for rc in binary:
         if wrap(rc, 'apply', 'reduce', h_binary_rule):
